@@ -129,4 +129,19 @@ PROPS = {
         ],
         "timeout": 2400,
     },
+    "C06": {
+        "lean_modules": ["JrpcProofs.Props.C06", "JrpcProofs.Facts.Cancel", "JrpcProofs.Facts.Corr", "JrpcProofs.Facts.Frames"],
+        "assumptions": [
+            "the peer is honest: it writes xrpc.cancel [id] only for a caller (or subscription) whose context was cancelled; the client side of that is tied by the regenerated skeletons of doRequest and handleCtxAsync",
+            "over HTTP the guarantee is net/http's request-context cancellation; the library-side facts (hreq.WithContext(ctx), ctx := r.Context()) are observed by the HTTP scenario",
+            "Go contexts: a derived context is cancelled when its parent is",
+        ],
+    },
+    "C15": {
+        "lean_modules": ["JrpcProofs.Props.C15", "JrpcProofs.Props.C06", "JrpcProofs.Facts.Cancel", "JrpcProofs.Facts.Corr"],
+        "assumptions": [
+            "the goroutine model (main loop, reader, executor, forwarder, pinger, response writers) is tied by regenerated skeletons and by the goroutine profile (pprof labels) after each scenario, not by trace replay",
+            "handleWS closes the socket after handleWsConn returns; a blocked NextReader then fails; the handlers return once cancelled (reaction time is a scenario parameter)",
+        ],
+    },
 }
